@@ -14,7 +14,9 @@ using namespace Qentem;
 template <typename C>
 static std::vector<std::basic_string<C>> universe() {
     std::vector<std::basic_string<C>> u;
-    const C                           al[3] = {C('a'), C('b'), C(sizeof(C) == 1 ? 0x7A : 0x20AC)};
+    // the third unit is not ASCII: for 8-bit char it is negative as a signed char, and every operator must agree on which
+    // side of 'a' it sorts (the expected order is the order of the character type's values)
+    const C                           al[3] = {C('a'), C('b'), C(sizeof(C) == 1 ? 0xE9 : 0x20AC)};
     u.push_back({});
     for (int len = 1; len <= 4; ++len) {
         int total = 1;
@@ -93,7 +95,7 @@ static void strings_random(uint64_t c) {
     for (int i = 0; i < 400; ++i) {
         std::basic_string<C> a, b;
         unsigned             n = r.below(40);
-        for (unsigned k = 0; k < n; ++k) a += C('a' + r.below(3));
+        for (unsigned k = 0; k < n; ++k) a += r.chance(1, 8) ? C(sizeof(C) == 1 ? 0x80 + r.below(0x80) : 0x80 + r.below(0x3000)) : C('a' + r.below(3));
         b = a;
         switch (r.below(4)) {
             case 0: b.resize(r.below(unsigned(b.size()) + 1)); break;
@@ -224,7 +226,7 @@ static void values_case(uint64_t c) {
 
 // ------------------------------------------------------------------ sorts
 static std::vector<std::string> sort_universe() {
-    return {"", "a", "ab", "b", "ba", "abc", "B", "aa"};
+    return {"", "a", "ab", "b", "ba", "abc", "B", "aa", "\xE9", "a\xE9"};
 }
 
 static bool ordered(const std::vector<std::string> &v, bool asc) {
